@@ -118,6 +118,8 @@ struct Script {
     /// index of the operation before which the fault is armed (occurrences are counted from
     /// there); None = armed from the very beginning
     arm_at: Option<usize>,
+    /// a failing write applies the first half of its bytes before reporting the error
+    short_writes: bool,
 }
 
 #[derive(Clone)]
@@ -155,7 +157,7 @@ fn make_long_wal_script(seed: u64) -> Script {
     for _ in 0..20 {
         ops.push(ScriptOp::Get(rng.pick(&pool).clone()));
     }
-    Script { cfg, pool, ops, arm_at: Some(arm_at) }
+    Script { cfg, pool, ops, arm_at: Some(arm_at), short_writes: false }
 }
 
 /// A compaction over cold tables: four sessions without log reuse each leave one level-0 table
@@ -191,7 +193,7 @@ fn make_cold_compaction_script(seed: u64) -> Script {
     for k in &pool {
         ops.push(ScriptOp::Get(k.clone()));
     }
-    Script { cfg, pool, ops, arm_at: Some(arm_at) }
+    Script { cfg, pool, ops, arm_at: Some(arm_at), short_writes: false }
 }
 
 fn make_script(history: u64, seed: u64, n_ops: usize) -> Script {
@@ -239,7 +241,7 @@ fn make_script(history: u64, seed: u64, n_ops: usize) -> Script {
             ops.push(ScriptOp::Reopen(Config { reuse: rng.chance(0.5), ..cfg }));
         }
     }
-    Script { cfg, pool, ops, arm_at: None }
+    Script { cfg, pool, ops, arm_at: None, short_writes: false }
 }
 
 struct RunResult {
@@ -253,6 +255,7 @@ fn run_script(out: &mut CaseOut, script: &Script, fault: Option<Fault>, ctx: &se
     let d = director();
     d.reset(7);
     let fs = SimFs::from_image(&dbutil::root_image());
+    fs.set_short_writes(script.short_writes);
     if script.arm_at.is_none() {
         fs.arm_fault(fault.clone());
     }
@@ -695,7 +698,9 @@ fn case_manifest_fault_in_nested_flush(out: &mut CaseOut, seed: u64, idx: u64) {
     sess.compact(Some(b"zzzz"), Some(b"zzzz")); // pure flush
     sess.wait_quiescent(Duration::from_secs(20));
     let nth = idx % 3; // which write to the manifest fails: first fragment, second fragment, third
-    let ctx = json!({"family": "manifest-fault-in-nested-flush", "config": cfg.describe(), "key_bytes": 20 * 1024, "fault": {"call": "write", "on": "manifest", "occurrence": nth, "mode": "transient"}});
+    let short = (idx / 3) % 2 == 1;
+    fs.set_short_writes(short);
+    let ctx = json!({"family": "manifest-fault-in-nested-flush", "config": cfg.describe(), "key_bytes": 20 * 1024, "fault": {"call": "write", "on": "manifest", "occurrence": nth, "mode": "transient", "short_write": short}});
     let gate = d.arm(COMPACTOR, "compact.step", 2);
     let db = sess.db_arc();
     let requester = std::thread::Builder::new().name("c08-compactor-client".into()).spawn(move || {
@@ -748,7 +753,7 @@ fn case_manifest_fault_in_nested_flush(out: &mut CaseOut, seed: u64, idx: u64) {
         }
     }
     if parked && rotated && fired {
-        out.nontrivial(format!("nested-flush-manifest-fault/write{nth}"));
+        out.nontrivial(format!("nested-flush-manifest-fault/write{nth}/short{}", short as u8));
     } else {
         out.add("fault_not_reached", 1);
     }
@@ -845,7 +850,7 @@ pub fn run_case(tier: &str, seed: u64, idx: u64) -> CaseOut {
     let idx = idx - idx / GROUP_EVERY;
     // every 16th case runs the long-WAL script (history 4), the others rotate over scripts 0-3
     let (history, j) = if idx % 16 == 15 { (4, idx / 16) } else if idx % 16 == 7 { (5, idx / 16) } else { (idx % HISTORIES, idx / HISTORIES) };
-    let script = make_script(history, seed, if tier == "quick" { 150 } else { 220 });
+    let mut script = make_script(history, seed, if tier == "quick" { 150 } else { 220 });
     // pilot: no fault, classify the call stream
     let mut pilot_out = CaseOut::new();
     let pilot = run_script(&mut pilot_out, &script, None, &json!({"pilot": true}));
@@ -904,7 +909,10 @@ pub fn run_case(tier: &str, seed: u64, idx: u64) -> CaseOut {
     // error-after-effect in the enumeration is a failing flush, which is a call of its own.)
     let after_effect = false;
     let fault = Fault { kind, class, nth, mode, after_effect };
-    let ctx = json!({"history": history, "config": script.cfg.describe(), "fault": {"call": kind.name(), "on": class.name(), "occurrence": nth,
+    // every other write fault is a short write: half of the bytes reach the file before the error
+    script.short_writes = kind == OpKind::Write && (idx / 3) % 2 == 1;
+    let short_writes = script.short_writes;
+    let ctx = json!({"history": history, "failing_write_is_short": short_writes, "config": script.cfg.describe(), "fault": {"call": kind.name(), "on": class.name(), "occurrence": nth,
         "of_about": pilot.counts.get(&(kind, class)), "mode": mode.name(), "error_reported_after_effect": after_effect}});
     let result = run_script(&mut out, &script, Some(fault), &ctx);
     out.add("fault_positions_available", n_pos * 3);
@@ -913,7 +921,7 @@ pub fn run_case(tier: &str, seed: u64, idx: u64) -> CaseOut {
         if fired && r.ops_after_fault > 0 {
             let total = pilot.counts.get(&(kind, class)).copied().unwrap_or(1).max(1);
             let bucket = match nth * 4 / total { 0 => "first-quarter", 1 => "second-quarter", 2 => "third-quarter", _ => "last-quarter" };
-            out.nontrivial(format!("{}/{}/{}/{}{}", kind.name(), class.name(), bucket, mode.name(), if after_effect { "/after-effect" } else { "" }));
+            out.nontrivial(format!("{}/{}/{}/{}{}{}", kind.name(), class.name(), bucket, mode.name(), if after_effect { "/after-effect" } else { "" }, if short_writes { "/short-write" } else { "" }));
             out.add(&format!("fired.{}.{}", kind.name(), class.name()), 1);
         } else if !fired {
             out.add("fault_not_reached", 1);
